@@ -67,6 +67,8 @@ def strict_same(a, b):
         return len(a) == len(b) and all(strict_same(x, y) for x, y in zip(a, b))
     if isinstance(a, frozenset):
         return len(a) == len(b) and all(any(strict_same(x, y) for y in b) for x in a)
+    if isinstance(a, (float, complex)) or type(a).__name__ == 'Decimal':
+        return a == b and repr(a) == repr(b)            # 0.0 / -0.0, Decimal('2.5') / Decimal('2.50'): == and serialised differently
     return a == b
 
 
